@@ -180,7 +180,7 @@ Record path := mkPath {
   pelems : list (list Z);   (* finished elements *)
   rpost : list Z;           (* post data (bytes behind off+len up to _used), last byte first *)
   plen : Z;                 (* number of post bytes *)
-  pfirst : Z;               (* uint8_t first *)
+  pfirst : Z;               (* uint8_t first: length of the first element, 0 when it does not fit *)
   pkeep : bool;             (* MPT_PATHFLAG(KeepPost) *)
   pbuf : bool }.            (* base != NULL (and HasArray) *)
 Definition ppost (p : path) : list Z := rev_append (rpost p) [].   (* = rev (rpost p), linear time *)
@@ -220,7 +220,7 @@ Definition path_add (p : path) (n : Z) : Z * path :=
     if existsb (Z.eqb SEP) e then (BadValue, p)
     else (0, mkPath (pelems p ++ [e]) (rev_append (skipn (S (Z.to_nat n)) (ppost p)) [])
                     (if plen p <=? n then 0 else plen p - n - 1)
-                    (match pelems p with [] => n mod 256 | _ => pfirst p end) false true).
+                    (match pelems p with [] => if 255 <? n then 0 else n | _ => pfirst p end) false true).
 
 Definition path_del (p : path) : Z * path :=
   match pelems p with
